@@ -236,7 +236,12 @@ where C: Clone + Debug + Serialize + Send + Sync + 'static {
                             }
                             Relevance::Known(id) => { *shared.known_hit.lock().unwrap().entry(id).or_insert(0) += 1; }
                             Relevance::Other => { *shared.other.lock().unwrap().entry(failure.tag.clone()).or_insert(0) += 1; }
-                            Relevance::Inconclusive => { shared.inconclusive.fetch_add(1, Ordering::AcqRel); }
+                            Relevance::Inconclusive => {
+                                // something did not complete within the watchdog in a check that is not about progress: the
+                                // verdict is "inconclusive"; every further case would wait for the watchdog again, so stop here
+                                shared.inconclusive.fetch_add(1, Ordering::AcqRel);
+                                shared.stop.store(true, Ordering::Release);
+                            }
                         }
                     }
                     Ok(())
